@@ -10,8 +10,10 @@
                           dist_<tag>.json   distribution of the generated programs
          (tag = <profile>_<seed>; key=value overrides a weight of the profile, see gen.ml)
      run eval <ast-file>            evaluate every program in the file (lines `id TAB sexp` or one bare sexp)
-     run pp <ast-file>              print the Never source of the first program in the file
-     run shrink <ast-file> <outdir> all one-step simplifications of the first program, in the format of `gen`
+     run pp <ast-file> [pipe=P]     print the Never source of the first program in the file (P percent of the
+                                    eligible calls spelled with |>, see pp.ml)
+     run shrink <ast-file> <outdir> [pipe=P]
+                                    all one-step simplifications of the first program, in the format of `gen`
      run profiles                   list profile names *)
 open Evalmodel
 open Conv
@@ -68,6 +70,7 @@ let nontrivial profile (st : Gen.st) (h : Stats.t) (c : canon) : bool =
       | "arrays" -> g "EArrLit" >= 1 && g "EIndex" >= 1
       | "catch" -> List.exists (fun m -> List.mem m c.printed) st.Gen.markers
       | "tailrec" -> fl "tail_called" > 0
+      | "pipe" -> fl "piped_calls" > 0
       | _ -> true)
 
 let overrides args =
@@ -111,6 +114,9 @@ let cmd_gen seed n outdir profile ovr =
       Printf.fprintf oa "%s\t%s\n" id (Sexp.program_to_string p)
     end else begin
       let h = Stats.program p in
+      let pipe = Gen.w st "pp_pipe" in
+      let src, _, npiped = Pp.print_program_full ~pipe p in
+      if npiped > 0 then (Hashtbl.replace st.Gen.flags "piped_calls" npiped);
       Stats.merge dist h;
       Stats.add dist "programs" 1;
       let sz = Stats.get h "nodes" in
@@ -130,9 +136,9 @@ let cmd_gen seed n outdir profile ovr =
       let fl = String.concat "," (Hashtbl.fold (fun k _ acc -> k :: acc) st.Gen.flags []) in
       Printf.fprintf oe "%s\t%s\t%d\t%s\t%s\t%s\t%d\n" id profile (if nt then 1 else 0) c.kind (printed_str c) fl sz;
       Printf.fprintf oa "%s\t%s\n" id (Sexp.program_to_string p);
-      output_string ob (header (id ^ ".o")); output_string ob (Pp.print_program p);
-      output_string ob (header (id ^ ".u")); output_string ob (Pp.print_program pu);
-      output_string ob (header (id ^ ".r")); output_string ob (Pp.print_program pr)
+      output_string ob (header (id ^ ".o")); output_string ob src;
+      output_string ob (header (id ^ ".u")); output_string ob (Pp.print_program ~pipe pu);
+      output_string ob (header (id ^ ".r")); output_string ob (Pp.print_program ~pipe pr)
     end
   done;
   close_out ob; close_out oe; close_out oa;
@@ -163,12 +169,12 @@ let cmd_eval path =
       let c = evaluate p in
       Printf.printf "%s\t%s\t%s\n" id c.kind (printed_str c)) (read_programs path)
 
-let cmd_pp path =
+let cmd_pp ?(pipe = 0) path =
   match read_programs path with
-  | (_, p) :: _ -> print_string (Pp.print_program p)
+  | (_, p) :: _ -> print_string (Pp.print_program ~pipe p)
   | [] -> ()
 
-let cmd_shrink path outdir =
+let cmd_shrink ?(pipe = 0) path outdir =
   match read_programs path with
   | [] -> ()
   | (id0, p) :: _ ->
@@ -178,7 +184,7 @@ let cmd_shrink path outdir =
     let oa = open_out (Filename.concat outdir "ast_shrink.txt") in
     let seen = Hashtbl.create 997 in
     List.iteri (fun i q ->
-        let src = Pp.print_program q in
+        let src = Pp.print_program ~pipe q in
         if not (Hashtbl.mem seen src) then begin
           Hashtbl.add seen src ();
           let c = evaluate ~fuel:small_fuel ~secs:0.5 q in
@@ -198,6 +204,8 @@ let () =
     cmd_gen (int_of_string seed) (int_of_string n) outdir profile (overrides rest)
   | [_; "eval"; path] -> cmd_eval path
   | [_; "pp"; path] -> cmd_pp path
+  | [_; "pp"; path; opt] -> cmd_pp ~pipe:(List.assoc "pipe" (overrides [opt])) path
+  | [_; "shrink"; path; outdir; opt] -> cmd_shrink ~pipe:(List.assoc "pipe" (overrides [opt])) path outdir
   | [_; "sig"; path] -> (match read_programs path with (_, p) :: _ -> print_endline (Shrink.signature p) | [] -> ())
   | [_; "shrink"; path; outdir] -> cmd_shrink path outdir
   | [_; "profiles"] -> List.iter print_endline Gen.profile_names
